@@ -99,7 +99,8 @@ def lean_audit(prop_id: str) -> dict:
     os.makedirs(adir, exist_ok=True)
     afile = os.path.join(adir, f"{prop_id}_{os.getpid()}.lean")
     with open(afile, "w") as fh:
-        fh.write(f"import GenjaxModel.Props.{prop_id}\nopen Genjax\n")
+        nss = re.findall(r"^namespace\s+([\w.]+)", strip_comments(open(props).read()), flags=re.M) or ["Genjax"]
+        fh.write(f"import GenjaxModel.Props.{prop_id}\n" + "".join(f"open {n}\n" for n in dict.fromkeys(["Genjax"] + nss)))
         for n in names:
             fh.write(f"#print axioms {n}\n")
     p = subprocess.run(["lake", "env", "lean", afile], cwd=LEAN, capture_output=True, text=True, timeout=1800)
@@ -163,7 +164,7 @@ def load_known_findings() -> list[dict]:
     if os.path.exists(path):
         for line in open(path):
             line = line.strip()
-            if line and not line.startswith("#"):
+            if line.startswith("{"):
                 out.append(json.loads(line))
     return out
 
@@ -287,3 +288,53 @@ def finish(ctx: Ctx, audit: dict, level_extra: dict | None = None) -> int:
           f"theorems={cov['discharged']}/{cov['obligations']} corr_breaks={len(ctx.corr_breaks)} failures={len(ctx.issues)} "
           f"known={ {k: v['n'] for k, v in ctx.known_hits.items()} } wall={ev['wall_s']}s -> exit {rc}")
     return rc
+
+
+# ----------------------------------------------------------------------------- sharding
+def _shard_entry(payload):
+    """runs in a fresh process: executes module.func(ctx, *args) on a private Ctx, returns its findings"""
+    import importlib
+    import os
+    import sys
+    os.environ.setdefault("JAX_PLATFORMS", "cpu")
+    sys.path.insert(0, os.path.dirname(os.path.abspath(__file__)))
+    mod, func, prop_id, tier, seed, args = payload
+    ctx = Ctx(prop_id, tier, seed)
+    try:
+        m = importlib.import_module(mod)
+        getattr(m, func)(ctx, *args)
+        err = None
+    except Infra as e:
+        err = f"Infra: {e}"
+    except Exception:
+        err = traceback.format_exc()[-1500:]
+    return {
+        "issues": ctx.issues, "corr_breaks": ctx.corr_breaks,
+        "known_hits": {k: {"finding": v["finding"], "n": v["n"], "example": v["example"], "what": v["what"]} for k, v in ctx.known_hits.items()},
+        "coverage": ctx.coverage, "nontrivial": [repr(x) for x in ctx.nontrivial], "error": err,
+    }
+
+
+def run_sharded(ctx: Ctx, mod: str, func: str, shard_args: list, nproc: int | None = None):
+    """run func(ctx_i, *shard_args[i]) in parallel worker processes and merge the results into ctx"""
+    import multiprocessing as mp
+    nproc = nproc or min(len(shard_args), max(1, (os.cpu_count() or 4) - 2))
+    payloads = [(mod, func, ctx.prop_id, ctx.tier, ctx.seed, a) for a in shard_args]
+    mpctx = mp.get_context("spawn")
+    with mpctx.Pool(nproc, maxtasksperchild=1) as pool:
+        results = pool.map(_shard_entry, payloads, chunksize=1)
+    for r in results:
+        if r["error"]:
+            raise Infra("shard failed: " + r["error"])
+        ctx.issues += r["issues"]
+        ctx.corr_breaks += r["corr_breaks"]
+        for k, v in r["known_hits"].items():
+            h = ctx.known_hits.setdefault(k, {"finding": v["finding"], "n": 0, "example": v["example"], "what": v["what"]})
+            h["n"] += v["n"]
+        ctx.coverage["evaluations"] += r["coverage"]["evaluations"]
+        for s in r["coverage"]["samples"]:
+            if len(ctx.coverage["samples"]) < 8:
+                ctx.coverage["samples"].append(s)
+        for k, n in r["coverage"]["histogram"].items():
+            ctx.count(k, n)
+        ctx.nontrivial |= set(r["nontrivial"])
